@@ -132,8 +132,11 @@ Step ==
                /\ UNCHANGED <<ann, handon, unsched, cann, collected, accepted, named, toreg, pexit, killed, target, spawned, errs>>
           \* kill probe (real LaunchMethod.cancel_task on real processes)
           [] e.ev = "ProbeEnd" ->
+               \* (a target which had ended before the request is dead anyway; the request must
+               \*  not raise: the caller has told the watcher to forget the task by then - C07)
                /\ errs' = errs \cup E(e.target \in SeqSet(e.dead), "C08.NamedNotKilled")
                                \cup E(SeqSet(e.dead) \subseteq {e.target}, "C08.BystanderKilled")
+                               \cup E(e.raised = "none", "C07.CancelOfGoneTaskRaises")
                /\ UNCHANGED <<ann, handon, unsched, cann, collected, accepted, named, toreg, pexit, killed, target, spawned, excused>>
           [] OTHER ->
                UNCHANGED <<ann, handon, unsched, cann, collected, accepted, named, toreg, pexit, killed, target, spawned, excused, errs>>
